@@ -211,7 +211,7 @@ class CFG:
                 b = self._build(s.get('body'), ctx.ret if ctx.ret is not None else self.exit_return, Ctx(ret=ctx.ret))
             else:
                 b = self._build(s.get('body'), nxt, Ctx(ret=nxt))
-            n = self._new('stmt', ast=s.get('call')); n.line = s.get('l', 0)
+            n = self._new('stmt', ast=s.get('call'), label='inlined-call'); n.line = s.get('l', 0)
             self._link(n, b)
             return n
         if k == 'GotoStmt':
